@@ -290,6 +290,11 @@ def run(pid, ctx, rep):
         sweep_gtxn(ctx, rep)
     elif pid == "C20":
         sweep_regex(ctx, rep)
+    elif pid == "C15":
+        sweep_meta(ctx, rep)
+    elif pid == "C14":
+        from .rules.output_rules import rule_history_runs
+        rule_history_runs(ctx, rep)
 
 
 # ---------------------------------------------------------------------------------------------- gtxn keys through the fixpoint (C10)
@@ -464,3 +469,120 @@ def sweep_regex(ctx, rep, rule="T-REGEX(sweep)", kmain=3, ksub=2):
     rep.samples.append({"rule": rule, "case": {"evaluations": total}, "verdict": "ok" if not bad else "disagreements"})
     if total < 1000:
         raise AnalysisError(f"only {total} regex evaluations")
+
+
+# ---------------------------------------------------------------------------------------------- metamorphic sweep (C15)
+
+META_VARIANTS = ("layout", "hex", "octal", "pushint", "intc", "padding", "all")
+
+
+def _meta_summary(ctx, w, pt, cf, an, ANY, detect, pred, src):
+    """per-block contexts of the governed fields and the rekey-to verdict of one program, keyed by block index"""
+    from .absint import Interp
+    teal = w.call(pt, src, "c")
+    fn = w.call(cf, teal, ["B0"])
+    fblocks = {w.getattr(b, "idx"): b for b in w.getattr(fn, "blocks")}
+    out = {}
+    results = {}
+    for modname, keys in (("int_fields", None), ("addr_fields", ["RekeyTo"]), ("fee_field", ["Fee"])):
+        me = w.new(an[modname], fn)
+        if keys is not None:
+            me.fields["BASE_KEYS"] = list(keys)
+        me.fields["KEYS_WITH_GTXN"] = []
+        me.fields["_store_results"] = ("builtin", "noop")
+        w.call(w.method(me, "run_analysis"))
+        results[modname] = w.getattr(me, "_block_contexts")
+    for i, b in sorted(fblocks.items()):
+        fee = results["fee_field"]["Fee"][b]
+        out[f"B{i}"] = {"GroupSize": sorted(results["int_fields"]["GroupSize"][b]), "GroupIndex": sorted(results["int_fields"]["GroupIndex"][b]),
+                        "RekeyTo": sorted(map(str, results["addr_fields"]["RekeyTo"][b])), "Fee": [w.getattr(fee, "is_unknown"), w.getattr(fee, "value")]}
+        c = w.call(w.method(fn, "transaction_context"), b)
+        Interp(c.cls.mod).assign_attr(w.getattr(c, "rekeyto"), "any_addr", ANY in results["addr_fields"]["RekeyTo"][b])
+    reported = w.call(detect, fn, pred)
+    out["rekey-to paths"] = [[w.getattr(x, "idx") for x in p] for p in reported]
+    return out
+
+
+def _meta_worker(args):
+    root, shard, nshards, cfg = args
+    import sys
+    sys.setrecursionlimit(20000)
+    import ast as _ast
+    from .context import Ctx
+    from .absint import PyRaise, Unsupported, FuncV
+    from .rules.cfg_rules import PT, PF
+    from .rules.cmptables import _find_analyses, _addr_consts
+    from . import gen
+    ctx = Ctx(root)
+    w = ctx.world
+    w.module(PF).values["_apply_transaction_context_analysis"] = ("builtin", "noop")
+    pt, cf = w.func(PT, "parse_teal"), w.func(PF, "construct_function")
+    an = _find_analyses(ctx)
+    ANY, NO = _addr_consts(ctx, an["addr_fields"])
+    DU = "tealer.detectors.utils"
+    detect = w.func(DU, "detect_missing_tx_field_validations")
+    pred = FuncV(w.module(DU), _ast.parse("lambda block_ctx: not block_ctx.rekeyto.any_addr", mode="eval").body, closure=None)
+    out, n = [], 0
+    for k, (name, src) in enumerate(gen.checked_programs(**cfg)):
+        if k % nshards != shard:
+            continue
+        n += 1
+        try:
+            base = _meta_summary(ctx, w, pt, cf, an, ANY, detect, pred, src)
+        except PyRaise as e:
+            out.append((name, src, "original", "runs", f"RAISES {e.exc} {e.where}", "completes"))
+            continue
+        except (Unsupported, RuntimeError) as e:
+            out.append((name, src, "original", "ANALYSIS", str(e), ""))
+            continue
+        for v in META_VARIANTS:
+            src2 = gen.rewrite(src, v)
+            try:
+                got = _meta_summary(ctx, w, pt, cf, an, ANY, detect, pred, src2)
+            except PyRaise as e:
+                out.append((name, src2, v, "runs", f"RAISES {e.exc} {e.where}", "completes"))
+                continue
+            except (Unsupported, RuntimeError) as e:
+                out.append((name, src2, v, "ANALYSIS", str(e), ""))
+                continue
+            if got != base:
+                diff = {kk: (got.get(kk), base.get(kk)) for kk in sorted(set(got) | set(base)) if got.get(kk) != base.get(kk)}
+                first = sorted(diff)[0]
+                out.append((name, src2, v, f"{first}", diff[first][0], diff[first][1]))
+    return n, out
+
+
+META_SWEEP = {"kmain": 3, "ksub": 2, "check_names": ("none", "size==2", "index>=1", "rekey==zero", "fee<=1000", "size<3"), "cond_names": ("free", "size==2", "rekey==zero", "index==0"),
+              "stride": 1400033, "offset": 17}
+
+
+def sweep_meta(ctx, rep, rule="T-META(sweep)", cfg=None, minimum=50):
+    cfg = cfg or META_SWEEP
+    rep.rule(rule, "metamorphic relation of C15 at bounded scale: enumerated programs of the direct-check fragment are rewritten without changing "
+                   "their meaning (labels renamed, comments / blank lines / indentation, integers in hex or octal, int -> pushint, int -> "
+                   "entry-block intcblock + intc_k, stack-neutral padding at statement boundaries, all of them together); the per-block "
+                   "GroupSize / GroupIndex / RekeyTo / Fee contexts and the rekey-to paths of the rewritten program, block by block, equal "
+                   "those of the original (abstract evaluation of parse_teal, construct_function and the three analyses)")
+    nshards = JOBS
+    with concurrent.futures.ProcessPoolExecutor(max_workers=JOBS) as ex:
+        results = list(ex.map(_meta_worker, [(str(ctx.root), s, nshards, cfg) for s in range(nshards)]))
+    total = sum(n for n, _ in results)
+    bad = [x for _, o in results for x in o]
+    for name, src, v, what, got, want in bad:
+        if what == "ANALYSIS":
+            raise AnalysisError(f"program {name} ({v}): {got}")
+    seen = {}
+    for name, src, v, what, got, want in bad:
+        seen[v] = seen.get(v, 0) + 1
+        if seen[v] <= 2:
+            rep.violation(rule, f"{v}: {what}: {name}", ctx.path("tealer.teal.parse_teal"), {"rewritten program": src, "got": got}, want,
+                          why="a meaning-preserving rewriting of the source changes a block context or the reported paths")
+    good = total * len(META_VARIANTS) - len(bad)
+    rep.obligations += good
+    rep.discharged += good
+    rep.rules[rule]["obligations"] += good
+    rep.count("programs rewritten and compared", total)
+    rep.counts["rewritings per program"] = len(META_VARIANTS)
+    rep.samples.append({"rule": rule, "case": {"programs": total, "variants": list(META_VARIANTS)}, "verdict": "ok" if not bad else "disagreements"})
+    if total < minimum:
+        raise AnalysisError(f"only {total} programs evaluated")
